@@ -116,7 +116,7 @@ def signalDoc (pfx sg : String) (len : Nat) (entries : List SigEntry) : DesDoc :
    Line.seq (wcName pfx sg) (List.replicate len 'N'),
    Line.struct (sname ++ "-_Self") (duplex len),
    Line.assign (sname ++ "-_Self") [⟨wcName pfx sg, false⟩, ⟨sname, false⟩]] ++
-  entries.flatMap (fun e =>
+  (Sys.dedupEntries entries).flatMap (fun e =>
     let dn := sname ++ "-" ++ (portItems pfx e).1
     [Line.struct dn (duplex len),
      Line.assign dn (⟨if e.wc then sname else wcName pfx sg, false⟩ :: (portItems pfx e).2)])
@@ -276,9 +276,15 @@ instance (doms : List (String × List Char)) (pfx : String) (len : Nat) (e : Sig
     Decidable (EntryOk doms pfx len e) := by
   unfold EntryOk; split <;> infer_instance
 
+/-- consistency of one block.  A component: `CompOk`.  A signal: every bound port is `EntryOk`, and entries of one
+    signal with equal connector name and orientation are the same entry — what `Sys.loadFile` guarantees (two
+    bindings of one port of one instance store the same port object); `System.output_nupack` writes such a
+    connector once (`Sys.dedupEntries`, repair F17), so without this clause the document would say nothing about
+    the dropped entry -/
 def BlockOk (doms : List (String × List Char)) : Block → Prop
   | .comp st => CompOk st
-  | .signal pfx _ len es => ∀ e ∈ es, EntryOk doms pfx len e
+  | .signal pfx _ len es => (∀ e ∈ es, EntryOk doms pfx len e) ∧
+      (∀ e ∈ es, ∀ e' ∈ es, e.connName = e'.connName → e.wc = e'.wc → e = e')
 
 instance (doms : List (String × List Char)) (b : Block) : Decidable (BlockOk doms b) := by
   cases b <;> unfold BlockOk <;> infer_instance
